@@ -36,6 +36,21 @@ OLD_T = 978307200  # 2001-01-01: any write moves mtime
 # ------------------------------------------------------------------ facts
 
 def facts(ctx):
+    """anchors of the transcription.  A missing anchor is reported as a broken tie, but the facts are still regenerated
+    and the run (cube + oracle) goes on: a changed main.rs must be judged by its behaviour, not only by its text."""
+    errs = []
+    try:
+        _facts(ctx, errs)
+    except TieBroken as ex:
+        errs.append(str(ex))
+    if errs:
+        if hasattr(ctx, "tie_errors"):
+            ctx.tie_errors.extend(errs)
+        else:
+            raise TieBroken("; ".join(errs))
+
+
+def _facts(ctx, errs):
     t = common.strip_tests(common.src("cli/src/main.rs"))
     body = common.fn_body(t, r"fn\s+main\s*\(\s*\)\s*->\s*Result<\(\)>\s*", "fn main")
     body = re.sub(r"(?m)^\s*//.*$", "", body)
@@ -58,28 +73,28 @@ def facts(ctx):
     for rx, what in anchors:
         m = re.search(rx, body)
         if not m:
-            raise TieBroken(f"srcfacts: main.rs no longer contains the {what} (pattern {rx!r}); re-transcribe Model/CliPaths.v")
-        pos.append(m.start())
+            errs.append(f"srcfacts: main.rs no longer contains the {what} (pattern {rx!r}); re-transcribe Model/CliPaths.v")
+        pos.append(m.start() if m else -1)
     order = [1, 2, 3, 4, 5]   # exists test < sign_file < persist < sidecar block < File::create(sidecar)
-    if [pos[i] for i in order] != sorted(pos[i] for i in order) or not (pos[0] < pos[1]) or not (pos[8] < pos[9] < pos[10]):
-        raise TieBroken("srcfacts: the order of the output decisions in main.rs changed; re-transcribe Model/CliPaths.v")
+    if min(pos) >= 0 and ([pos[i] for i in order] != sorted(pos[i] for i in order) or not (pos[0] < pos[1]) or not (pos[8] < pos[9] < pos[10])):
+        errs.append("srcfacts: the order of the output decisions in main.rs changed; re-transcribe Model/CliPaths.v")
     counts = {"remove_file(": 1, "remove_dir_all(": 1, "File::create(": 4, "std::fs::write(": 1, "copy(": 1, "create_dir_all(": 2}
     for k, n in counts.items():
         got = len(re.findall(r"(?<![\w])" + re.escape(k), body))
         if got != n:
-            raise TieBroken(f"srcfacts: fn main has {got} calls of {k}..) where the model accounts for {n}")
+            errs.append(f"srcfacts: fn main has {got} calls of {k}..) where the model accounts for {n}")
     # is the sidecar write guarded by an existence/force test?  (true since 5fdfaf69f; F-CLI-SIDECAR fixed)
     g1 = bool(re.search(r"sidecar\w*\.exists\(\)[^;{}]*!\s*args\.force|!\s*args\.force[^;{}]*sidecar\w*\.exists\(\)", body))
     g1b = bool(re.search(r"with_extension\(\"c2pa\"\)\s*\.exists\(\)[^;{}]*!\s*args\.force", body))
     st = common.strip_tests(common.src("sdk/src/store.rs"))
     fb = common.fn_body(st, r"pub\s+fn\s+save_to_bmff_fragmented\s*<", "save_to_bmff_fragmented")
     if not re.search(r"save_jumbf_to_file\(&unsigned_jumbf,\s*init_path,\s*Some\(&output_file\)\)", fb):
-        raise TieBroken("srcfacts: save_to_bmff_fragmented no longer writes the init segment with save_jumbf_to_file")
+        errs.append("srcfacts: save_to_bmff_fragmented no longer writes the init segment with save_jumbf_to_file")
     g2 = bool(re.search(r"output_file\s*\.\s*(exists|try_exists)\(\)", fb))
     bh = common.strip_tests(common.src("sdk/src/assertions/bmff_hash.rs"))
     mb = common.fn_body(bh, r"pub\s+fn\s+add_merkle_for_fragmented\s*\(", "add_merkle_for_fragmented")
     if not re.search(r"\.create_new\(true\)\s*\.write\(true\)\s*\.open\(&dest_path\)", mb):
-        raise TieBroken("srcfacts: fragments are no longer written with create_new(true)")
+        errs.append("srcfacts: fragments are no longer written with create_new(true)")
     sg = "true" if (g1 or g1b) else "false"
     fg = "true" if g2 else "false"
     v = ("(* generated from cli/src/main.rs and sdk/src/store.rs on every run — do not edit *)\n"
@@ -233,6 +248,9 @@ def materialise(r, w, fx):
                 put(os.path.join(w, out), "OLD-OUTPUT")
             elif r["out"] == "ODir":
                 put(os.path.join(w, out, "keep.txt"), "KEEP")
+                # files of an earlier run, named like the ones the folder modes write
+                for n in ("ingredient.json", "manifest_store.json", "manifest_data.c2pa", "detailed.json"):
+                    put(os.path.join(w, out, n), "OLD-" + n)
                 if r["finit"]:
                     put(os.path.join(w, out, "rend", INIT), "OLD-INIT")
                 if r["fseg"]:
@@ -458,7 +476,8 @@ def pick_cases(ctx):
         # the complete cube over the decision-relevant predicates with remote/early/ingredient at their defaults,
         # plus a seeded sample of the rest
         def is_core(r):
-            return not r["remote"] and not r["early"] and not r["ingredient"] and r["fragment"] != "FNoGlob"
+            return (not r["remote"] and not r["early"] and r["fragment"] != "FNoGlob"
+                    and (not r["ingredient"] or (not r["has_manifest"] and not r["sidecar"] and r["fragment"] == "FNone")))
         core = [r for r in full if is_core(r)]
         rest = [r for r in full if not is_core(r)]
         pick = core + ctx.rng.sample(rest, min(len(rest), 120))
@@ -494,7 +513,7 @@ def run(ctx):
     ctx.coverage.update({
         "evaluations": len(cases), "distinct_nontrivial": distinct,
         "rule": "realisable records of the predicate cube (complete in the thorough tier; in the quick tier complete for "
-                "remote=early=ingredient=false, fragment<>FNoGlob, plus a seeded sample of 120 others), corpus first; non-trivial = some target "
+                "remote=early=false, fragment<>FNoGlob, ingredient only in the folder modes, plus a seeded sample of 120 others), corpus first; non-trivial = some target "
                 "(output or sidecar) exists before the run; distinct by record",
         "domain_size": n[1], "realisable": n[0],
         "distribution": stats,
